@@ -1,5 +1,6 @@
 import RactorModel.Lemmas.Remote
 import RactorModel.Lemmas.Link
+import RactorModel.Lemmas.Mux
 import RactorModel.Extracted
 
 /-!
@@ -227,6 +228,73 @@ theorem remote_membership_at_ready (L0 : Memb) (k : GKey) (pid : Nat) :
 theorem close_removes_everything (cs : List Ctl) :
     (Mirror.run {} (cs ++ [.close])).proxies = [] ∧ (Mirror.run {} (cs ++ [.close])).members = [] := by
   simp [Mirror.run, List.foldl_append, Mirror.step]
+
+/-! ## several remote references over one connection (`Model/Mux.lean`) -/
+
+/-- (the shared wire is a private FIFO per reference) For every interleaving of frames sent for
+any pids, stage moves of the ONE shared chain of FIFO stages and changes of the lookup table: for
+every pid `p`, what has left the wire for `p` followed by what is still in flight for `p` is
+exactly what was sent for `p`, in order. This is the FIFO pipe `Net` assumes for one proxy. -/
+theorem shared_wire_is_a_private_fifo_per_reference {α : Type} (ops : List (Mux.WOp α)) (p : Nat) :
+    let w := Mux.Wire.run ({} : Mux.Wire α) ops
+    w.outOf p ++ Mux.proj p w.stages.contents = Mux.proj p w.pushed := by
+  have h := (Mux.winv_run ops _ (Mux.winv_init (α := α))).fifo
+  simp only [Mux.Wire.outOf]
+  rw [← Mux.proj_append, h]
+
+/-- (routing by `to`) Whatever the interleaving, an actor is only ever handed frames whose `to`
+names it: no cast, call or reply reaches the actor / proxy of another pid. -/
+theorem frames_are_handed_only_to_the_actor_named_by_to {α : Type} (ops : List (Mux.WOp α)) (a : Nat) :
+    ∀ e ∈ (Mux.Wire.run ({} : Mux.Wire α) ops).handedTo a, e.1 = a := by
+  have h := (Mux.winv_run ops _ (Mux.winv_init (α := α))).handed
+  intro e he
+  simp only [Mux.Wire.handedTo, List.mem_map, List.mem_filter] at he
+  obtain ⟨x, ⟨hx, hxa⟩, rfl⟩ := he
+  exact (h x hx a (by simpa using hxa)).symm
+
+/-- (tags are per reference) A `Reply{to, tag}` is handled by the proxy stored under `to` only:
+every other proxy — also one that has a request pending under the very same tag — is unchanged,
+and the only deliveries are the addressed proxy's. -/
+theorem reply_touches_only_the_addressed_proxy (m : Mux.MultiProxy) (closed : Nat → Bool) (to tag data : Nat) :
+    (∀ e ∈ m, e.1 ≠ to → e ∈ (m.reply closed to tag data).1) ∧
+    (∀ e ∈ (m.reply closed to tag data).1, e.1 ≠ to → e ∈ m) ∧
+    (∀ px, m.find? (·.1 == to) = some (to, px) →
+      (m.reply closed to tag data).2 = (px.handle closed true (.reply tag data)).2) ∧
+    (m.find? (·.1 == to) = none → (m.reply closed to tag data) = (m, [])) := by
+  unfold Mux.MultiProxy.reply
+  cases hf : m.find? (·.1 == to) with
+  | none => exact ⟨fun e he _ => he, fun e he _ => he, by simp, by simp⟩
+  | some e =>
+    obtain ⟨k, px⟩ := e
+    refine ⟨?_, ?_, ?_, by simp⟩
+    · intro e he hne
+      simp only [List.mem_map]
+      exact ⟨e, he, by simp [hne]⟩
+    · intro e he hne
+      simp only [List.mem_map] at he
+      obtain ⟨x, hx, rfl⟩ := he
+      by_cases hk : x.1 = to
+      · simp [hk] at hne
+      · simpa [hk] using hx
+    · intro px' hpx
+      simp only [Option.some.injEq, Prod.mk.injEq] at hpx
+      rw [hpx.2]
+
+/-- two references whose proxies both have a request pending under tag 1 (each counter starts at
+0): the reply for pid 2 resolves port 20 only -/
+example :
+    let m : Mux.MultiProxy := [(1, { tag := 1, pending := [(1, 10)] }), (2, { tag := 1, pending := [(1, 20)] })]
+    (m.reply (fun _ => false) 2 1 77).2 = [.deliver 20 77] ∧
+      ((m.reply (fun _ => false) 2 1 77).1.map fun e => (e.1, e.2.pending)) = [(1, [(1, 10)]), (2, [])] := by decide
+
+/-- four frames for two pids through two shared stages; pid 2 is removed while its second frame
+is in flight (dropped) -/
+example :
+    let w := Mux.Wire.run ({ stages := [[], []] } : Mux.Wire Nat)
+      [.ensure 1, .ensure 2, .send 1 10, .send 2 20, .send 1 11, .send 2 21, .move 0, .move 0, .move 1, .move 1,
+       .remove 2, .move 0, .move 0, .move 1, .move 1]
+    w.handedTo 1 = [(1, 10), (1, 11)] ∧ w.handedTo 2 = [(2, 20)] ∧ w.outOf 2 = [20, 21] ∧ w.out.length = 4 := by
+  decide
 
 /-! ## the session under transport errors (`Model/Link.lean`) -/
 
@@ -491,6 +559,9 @@ example :
 #print axioms C20.every_stream_end_closes_session
 #print axioms C20.frames_reach_node_session_under_any_fragmentation
 #print axioms C20.okDown_model
+#print axioms C20.shared_wire_is_a_private_fifo_per_reference
+#print axioms C20.frames_are_handed_only_to_the_actor_named_by_to
+#print axioms C20.reply_touches_only_the_addressed_proxy
 #print axioms C20.send_accepted_iff_reference_live
 #print axioms C20.stopping_one_reference_closes_the_session
 
